@@ -12,13 +12,16 @@ import Dasp.Model.Buffered
 namespace Dasp.Driver
 open Dasp.Buffered Dasp.SrcQueue
 
-def bufOp? (t : String) : Option Op :=
+/-- the flag marks `T<k>` = `next_frames().nth(k)`: `Iterator::nth(k)` is `k+1` calls of `next` of which
+    only the last result is handed out (`Dasp.Buffered.nthView`, Props/C14 `nth_is_last_of_frames`) -/
+def bufOp? (t : String) : Option (Op × Bool) :=
   match t.toList with
-  | ['N'] => some .next
-  | ['D'] => some .drain
-  | ['U'] => some .untilExhausted
-  | ['E'] => some .look
-  | 'F' :: ds => (String.ofList ds).toNat?.map Op.frames
+  | ['N'] => some (.next, false)
+  | ['D'] => some (.drain, false)
+  | ['U'] => some (.untilExhausted, false)
+  | ['E'] => some (.look, false)
+  | 'F' :: ds => (String.ofList ds).toNat?.map fun k => (Op.frames k, false)
+  | 'T' :: ds => (String.ofList ds).toNat?.map fun k => (Op.frames (k + 1), true)
   | _ => none
 
 def showOpt : Option Int → String
@@ -41,9 +44,10 @@ def bufLine (args : List String) : String :=
         let rest2 := rest.drop (p + 1)
         if rest2.length < n then "bad-op" else
         match (rest2.take n).mapM String.toInt?, (rest2.drop n).mapM bufOp? with
-        | some frames, some ops =>
+        | some frames, some fops =>
+          let ops := fops.map Prod.fst
           let s := init { frames := frames, eq := (0 : Int), pos := 0 } prefill cap
-          let obs := (trace s ops).map showBufObs
+          let obs := (List.zipWith (fun o (f : Op × Bool) => if f.2 then nthView o else o) (trace s ops) fops).map showBufObs
           let fin := run s ops
           " ".intercalate (obs ++ ["rest=" ++ showList (fin.q.map toString)])
         | _, _ => "bad-op"
